@@ -335,6 +335,32 @@ def explore_parallel(
     for r in results:
         total.merge(r)
     total.tags["jobs"] = len(jobs)
+    # every reported violation is re-executed from scratch on a fresh world and must fail again before it is believed
+    confirmed = []
+    for v in total.violations:
+        w = h.fresh()
+        try:
+            again: list[str] = []
+            try:
+                for lab in v["choices"]:
+                    h.apply(w, lab)
+                    again = h.verdict(w)
+                    if again:
+                        break
+                else:
+                    again = h.finish(w)
+            except Exception as e:  # noqa: BLE001
+                again = []
+                total.divergence = total.divergence or f"re-execution of a violating schedule raised {type(e).__name__}: {e}"
+        finally:
+            h.close(w)
+        if again:
+            confirmed.append(v)
+        else:
+            total.diverged += 1
+            total.divergence = total.divergence or f"violation {v['violated'][:1]} did not reproduce when its schedule {v['choices']} was re-executed"
+    total.tags["violations_reexecuted"] = len(total.violations)
+    total.violations = confirmed
     if total.diverged and not total.violations:
         # nothing may pass on top of executions that could not be replayed
         raise HarnessError(f"{total.diverged} prefix replays diverged and no violation was found: {total.divergence}")
